@@ -7,7 +7,7 @@ export CARGO_TARGET_DIR="$wt/target" CARGO_NET_OFFLINE=true
 cd "$wt" || exit 2
 git checkout -q -- crates 2>/dev/null
 name=$(basename "$dest" .rs)
-cp _mutant/demo.rs "$dest"
+mkdir -p "$(dirname "$dest")"; cp _mutant/demo.rs "$dest"
 echo "--- demo WITHOUT patch"; cargo test --offline -p "$crate" --test "$name" $extra 2>&1 | grep -E "^test result|error(\[|:)" | head -3
 git apply _mutant/patch.diff || { echo "PATCH DOES NOT APPLY"; exit 2; }
 echo "--- demo WITH patch"; cargo test --offline -p "$crate" --test "$name" $extra 2>&1 | grep -E "^test result|panicked|error(\[|:)" | head -4
